@@ -361,7 +361,7 @@ Proof.
 Qed.
 
 Lemma lookup_named_nf ex outs ps rule sc name : nf (snd (lookup_named ex outs ps rule sc name)).
-Proof. unfold lookup_named. apply rule_expansion_fuel_suffices. cbn [bx_rule var_fuel]. lia. Qed.
+Proof. unfold lookup_named. apply rule_expansion_fuel_suffices. cbn [bx_rule]. unfold var_fuel. lia. Qed.
 
 (* ================================================================ a rule variable that reaches itself is reported *)
 
@@ -426,3 +426,119 @@ Proof.
   - exists v. exact He.
   - exfalso. exact (rule_expansion_fuel_suffices cx fuel n Hf He).
 Qed.
+
+(* ================================================================ the loader: one decl at a time *)
+
+(* the body of the loop of run_decls *)
+Definition step (fuel depth : nat) (wd : bytes) (fs : files) (a : scopes * mstate) (d : decl) : scopes * mstate :=
+  let '(sc, st) := a in
+  match d with
+  | DInclude is_inc ptext =>
+    let '(path, es) := eval_in_scope sc ptext in
+    let st1 := add_errors st es in
+    if Nat.leb max_include_depth depth then (sc, add_errors st1 [EIncludeTooDeep]) else
+    match fuel with
+    | O => (sc, add_errors st1 [EOutOfFuel])
+    | S f =>
+      match find_file fs (make_absolute wd path) with
+      | None => (sc, add_errors st1 [EMissingFile])
+      | Some ds' =>
+        if is_inc then run_decls f (S depth) wd fs ds' (sc, st1)
+        else (sc, snd (run_decls f (S depth) wd fs ds' (empty_frame :: sc, st1)))
+      end
+    end
+  | _ => run_simple wd d sc st
+  end.
+
+Lemma run_decls_fold fuel depth wd fs ds acc :
+  run_decls fuel depth wd fs ds acc = fold_left (step fuel depth wd fs) ds acc.
+Proof. destruct fuel; reflexivity. Qed.
+
+Lemma run_decls_nil fuel depth wd fs acc : run_decls fuel depth wd fs [] acc = acc.
+Proof. rewrite run_decls_fold. reflexivity. Qed.
+
+Lemma run_decls_cons fuel depth wd fs d ds acc :
+  run_decls fuel depth wd fs (d :: ds) acc = run_decls fuel depth wd fs ds (step fuel depth wd fs acc d).
+Proof. rewrite !run_decls_fold. reflexivity. Qed.
+
+Lemma run_decls_app fuel depth wd fs ds1 ds2 acc :
+  run_decls fuel depth wd fs (ds1 ++ ds2) acc = run_decls fuel depth wd fs ds2 (run_decls fuel depth wd fs ds1 acc).
+Proof. rewrite !run_decls_fold. apply fold_left_app. Qed.
+
+(* ---------------------------------------------------------------- include shares the scope, subninja nests *)
+
+(* `include`: the decls of the included file are processed in place, in the SAME scope, and what they leave in
+   the scope and in the manifest is what the rest of the including file sees *)
+Theorem include_shares_scope f depth wd fs sc st ptext path es ds rest :
+  eval_in_scope sc ptext = (path, es) -> (depth < max_include_depth)%nat ->
+  find_file fs (make_absolute wd path) = Some ds ->
+  run_decls (S f) depth wd fs (DInclude true ptext :: rest) (sc, st) =
+  run_decls (S f) depth wd fs rest (run_decls f (S depth) wd fs ds (sc, add_errors st es)).
+Proof.
+  intros He Hd Hf. rewrite run_decls_cons. f_equal. cbn [step]. rewrite He.
+  apply Nat.leb_gt in Hd. rewrite Hd, Hf. reflexivity.
+Qed.
+
+(* `subninja`: the decls of the file are processed in a fresh scope whose parent is the current one; afterwards
+   the current scope is exactly what it was (no binding and no rule of the file is visible), only the manifest
+   (commands, nodes, pools, defaults, errors) keeps what the file added *)
+Theorem subninja_nests f depth wd fs sc st ptext path es ds rest :
+  eval_in_scope sc ptext = (path, es) -> (depth < max_include_depth)%nat ->
+  find_file fs (make_absolute wd path) = Some ds ->
+  run_decls (S f) depth wd fs (DInclude false ptext :: rest) (sc, st) =
+  run_decls (S f) depth wd fs rest
+            (sc, snd (run_decls f (S depth) wd fs ds (empty_frame :: sc, add_errors st es))).
+Proof.
+  intros He Hd Hf. rewrite run_decls_cons. f_equal. cbn [step]. rewrite He.
+  apply Nat.leb_gt in Hd. rewrite Hd, Hf. reflexivity.
+Qed.
+
+(* whatever a file does, it only changes the innermost frame: the enclosing scopes are out of its reach *)
+Lemma run_simple_tail wd d fr sc st : exists fr', fst (run_simple wd d (fr :: sc) st) = fr' :: sc.
+Proof.
+  destruct d as [n v|ps|i p|outs r ex im oo bs|n bs|n bs|c]; cbn [run_simple].
+  - destruct (eval_in_scope (fr :: sc) v) as [val es]. cbn [fst set_var]. eexists; reflexivity.
+  - eexists; reflexivity.
+  - eexists; reflexivity.
+  - eexists; reflexivity.
+  - eexists; reflexivity.
+  - unfold run_rule. destruct (rule_bindings bs []) as [r e1]. cbn [fst set_rule]. eexists; reflexivity.
+  - eexists; reflexivity.
+Qed.
+
+Lemma run_decls_tail wd fs : forall fuel depth ds fr sc st,
+  exists fr', fst (run_decls fuel depth wd fs ds (fr :: sc, st)) = fr' :: sc.
+Proof.
+  induction fuel as [|f IHf]; intros depth ds; induction ds as [|d ds IHd]; intros fr sc st.
+  - rewrite run_decls_nil. eexists; reflexivity.
+  - rewrite run_decls_cons.
+    assert (Hs : exists fr1 st1, step 0 depth wd fs (fr :: sc, st) d = (fr1 :: sc, st1)).
+    { destruct d as [n v|ps|i p|outs r ex im oo bs|n bs|n bs|c];
+        try (destruct (run_simple_tail wd _ fr sc st) as [fr1 H1]; cbn [step];
+             match goal with |- exists _ _, ?X = _ => destruct X as [sc1 st1] eqn:E end;
+             cbn [fst] in H1; subst sc1; eexists; eexists; reflexivity).
+      cbn [step]. destruct (eval_in_scope (fr :: sc) p) as [path es].
+      destruct (Nat.leb max_include_depth depth); eexists; eexists; reflexivity. }
+    destruct Hs as [fr1 [st1 Hs]]. rewrite Hs. apply IHd.
+  - rewrite run_decls_nil. eexists; reflexivity.
+  - rewrite run_decls_cons.
+    assert (Hs : exists fr1 st1, step (S f) depth wd fs (fr :: sc, st) d = (fr1 :: sc, st1)).
+    { destruct d as [n v|ps|i p|outs r ex im oo bs|n bs|n bs|c];
+        try (destruct (run_simple_tail wd _ fr sc st) as [fr1 H1]; cbn [step];
+             match goal with |- exists _ _, ?X = _ => destruct X as [sc1 st1] eqn:E end;
+             cbn [fst] in H1; subst sc1; eexists; eexists; reflexivity).
+      cbn [step]. destruct (eval_in_scope (fr :: sc) p) as [path es].
+      destruct (Nat.leb max_include_depth depth); [eexists; eexists; reflexivity|].
+      destruct (find_file fs (make_absolute wd path)) as [ds'|]; [|eexists; eexists; reflexivity].
+      destruct i; [|eexists; eexists; reflexivity].
+      destruct (IHf (S depth) ds' fr sc (add_errors st es)) as [fr1 H1].
+      destruct (run_decls f (S depth) wd fs ds' (fr :: sc, add_errors st es)) as [sc1 st1].
+      cbn [fst] in H1. subst sc1. eexists; eexists; reflexivity. }
+    destruct Hs as [fr1 [st1 Hs]]. rewrite Hs. apply IHd.
+Qed.
+
+(* the parent's bindings and rules are the same before, during and after a subninja file, for every file content:
+   inside, the enclosing scopes are the tail of the scope list at every point *)
+Theorem subninja_cannot_touch_parent wd fs fuel depth ds sc st :
+  exists fr', fst (run_decls fuel depth wd fs ds (empty_frame :: sc, st)) = fr' :: sc.
+Proof. apply run_decls_tail. Qed.
